@@ -288,7 +288,19 @@ fn groups(g: &mut Groups) {
     let built = match e3::built(ctx) {
         Ok(b) => b,
         Err(e) => {
-            ctx.note(format!("INFRA: e3 programs unavailable: {e}"));
+            // The hand-written program (p0 / p0r: every special form of the
+            // macros, at their documented limits) compiles on the unchanged
+            // tree; if *it* is rejected, divan rejects valid benchmark items.
+            // Any other build failure is the generator's problem (exit 2).
+            let in_golden = e.contains("--> benches/p0.rs") || e.contains("--> benches/p0r.rs");
+            let in_generated = e.lines().any(|l| l.trim_start().starts_with("--> benches/p") && !l.contains("benches/p0.rs") && !l.contains("benches/p0r.rs"));
+            if in_golden && !in_generated {
+                g.enumerate_local("programs", vec![Case { program: 0, reversed_source: false, mode: "build".into() }], |_| {
+                    Verdict::fail("golden-program-rejected", format!("the hand-written program with every supported form no longer compiles:\n{e}"))
+                });
+            } else {
+                ctx.note(format!("INFRA: e3 programs unavailable: {e}"));
+            }
             return;
         }
     };
